@@ -22,6 +22,10 @@ CLAIMED = {
   text="Seeded search over (argument count up to 600000, length distribution, RLIMIT_STACK, environment size and shape, -n/-s) with every invocation passed through to a real fork+execve of /bin/true under exactly the stack limit and environment the code under test computed against: the injected fault is the kernel answering E2BIG, so the judge of 'accepted by exec' is this kernel, not a model. The history must also show every argument delivered once in order, and an argument that cannot be passed at all reported with exit 1 and never handed to exec.",
   note="Trusted: the Linux per-argument and budget rules are used only to classify which single arguments cannot be passed at all (with a gray zone around the POSIX headroom); stdin is a stub; fork/exec/wait are real.",
   tech=TECH+"randomised OS-budget knobs (RLIMIT_STACK, environment) with real execve as the failing system call; history oracle over the spawn log"),
+ "C15": dict(
+  text="The clock is the injected seam (Dependencies::now): seeded scenarios place `now` at timestamp + k*period + eps for period 60 s / 86400 s, k up to 20000 and eps in {-1 s, -1 ns, 0, +1 ns, +1 s, sub-second}, decades away from the wall clock so that any read of the real clock is visible; atime/mtime are set independently at nanosecond resolution, ctime-relative scenarios are anchored to the real ctime read back with lstat; all of -{a,c,m}time, -{a,c,m}min with N/+N/-N, -newer, -anewer, -cnewer and the nine -newerXY are judged by exact integer-nanosecond arithmetic on the lstat records.",
+  note="Trusted: the reference arithmetic (20 lines), lstat. Only ages >= 0 and only regular files, as the statement is quantified.",
+  tech=TECH+"injected simulated clock placed at period boundaries, real file timestamps set with utimensat; exact reference arithmetic"),
  "C19": dict(
   text="The child-outcome script is the fault sequence: seeded histories over exit 0 / 1..125 / 255, death by signal (with and without core), spawn errors (ENOENT, EACCES, ENOEXEC, ENOMEM, EAGAIN, E2BIG, ETXTBSY) at every position and length, plus xargs' own errors; the real classification and exit-status mapping code consumes fabricated wait statuses, and a calibration slice runs the same scripts with real child processes (simchild exiting / raising signals, a missing path, a non-executable file). Oracle: fold over the history (first fatal outcome stops the run; 123 iff some 1..125; own errors 1).",
   note="Trusted: ExitStatus::from_raw fabrication (cross-checked by the real-process slice), the fold (30 lines). Exit codes 126..254 are outside the statement and not generated.",
@@ -44,7 +48,7 @@ NA = {
  "C18":"relational statement over argv and file contents; its error-isolation clause is exercised inside C02",
 }
 PENDING = {k: "claimed in DESIGN.md; check still under construction (not yet registered)" for k in
-           ["C07","C08","C09","C10","C15"]}
+           ["C07","C08","C09","C10"]}
 
 def main():
     checks = []
